@@ -162,6 +162,12 @@ func runToken(s *kernel.Sim, p params) {
 		tok = tw.Token(now-maxAge-30, now+3600)
 	case "fresh-enough":
 		tok = tw.Token(now-maxAge+120, now+3600)
+	case "no-exp-too-old":
+		tok = tw.Token(now-maxAge-30, refcodec.NoExp)
+	case "no-exp-fresh":
+		tok = tw.Token(now-10, refcodec.NoExp)
+	case "no-exp-too-old-during":
+		tok = tw.Token(now-maxAge+2, refcodec.NoExp)
 	case "other-subject":
 		tok = refcodec.MakeToken(tw.RawKey, tw.KeyID, "bob@elsewhere", tw.Issuer, now-10, now+3600, "cd")
 	}
@@ -375,6 +381,9 @@ func runVerify(s *kernel.Sim, p params) {
 		tok = refcodec.MakeToken(t.Bytes("other-key", 32), tw.KeyID, tw.Subject, tw.Issuer, now-300, now+300, "ab")
 	case "unknown-kid":
 		tok = refcodec.MakeToken(tw.RawKey, "nosuchkey", tw.Subject, tw.Issuer, now-300, now+300, "ab")
+	case "no-exp":
+		// no expiry claim: the token ends when it is older than the maximum age (issued 300 s before that)
+		tok = tw.Token(now-maxAge+300, refcodec.NoExp)
 	}
 	// move the clock
 	s.Go("clock", func() {
@@ -520,12 +529,12 @@ func gen(g *scen.Gen) {
 		seed++
 		return g.Emit(scen.Case{Seed: seed, Params: scen.Params(p)})
 	}
-	for _, v := range []string{"valid", "other-key", "unknown-kid", "no-kid-pool", "other-subject", "too-old-already", "fresh-enough", "expires-later"} {
+	for _, v := range []string{"valid", "other-key", "unknown-kid", "no-kid-pool", "other-subject", "too-old-already", "fresh-enough", "expires-later", "no-exp-too-old", "no-exp-fresh"} {
 		if !emit(params{Kind: "token", Var: v}) {
 			return
 		}
 	}
-	for _, v := range []string{"valid", "expires-during", "expires-later", "too-old-during", "fresh-enough"} {
+	for _, v := range []string{"valid", "expires-during", "expires-later", "too-old-during", "fresh-enough", "no-exp-too-old-during", "no-exp-fresh"} {
 		for _, d := range []int{5, 30} {
 			if !emit(params{Kind: "token", Var: v, Delay: d}) {
 				return
@@ -592,7 +601,7 @@ func gen(g *scen.Gen) {
 	}
 	// standalone verification: same variants x clock positions around exp (+300) and max age (+300)
 	for _, clock := range []int{0, 298, 299, 300, 301, 302, 900} {
-		for _, v := range []string{"valid", "other-key", "unknown-kid"} {
+		for _, v := range []string{"valid", "other-key", "unknown-kid", "no-exp"} {
 			if !emit(params{Kind: "verify", Var: v, Clock: clock}) {
 				return
 			}
